@@ -161,7 +161,12 @@ def finish(pid, tier, seed, cfg, kf, outs, units_by_id, wall):
                                                          expected=f['expected'], observed=f['observed'],
                                                          how='run-time contract failed on an enumerated case (bounded layer)'))
                     violations.append((oid, path, ''))
-        d_summ.append(dict(driver=did, evaluations=ev, distinct_nontrivial=dn, failures=nf,
+        try:
+            drv = find_driver(did, setup=False)
+            drule, dbound, dexh = drv.rule, drv.bound, bool(getattr(drv, 'exhaustive', False))
+        except Exception:      # noqa
+            drule, dbound, dexh = '', '', False
+        d_summ.append(dict(driver=did, rule=drule, bound=dbound, enumerates_its_domain_completely=dexh, evaluations=ev, distinct_nontrivial=dn, failures=nf,
                            truncated=any(c['truncated'] for c in chunks),
                            samples=[s for c in chunks for s in c['samples']][:2]))
 
@@ -213,7 +218,10 @@ def finish(pid, tier, seed, cfg, kf, outs, units_by_id, wall):
             checker_cmd=f'./check {pid} --tier {tier}  (pyvc: python ast -> verification conditions; z3 {_z3v()} API, /usr/bin/cvc5 --strings-exp and z3-new CLI for unknowns)',
             trusted_base=cfg.get('trusted_base', []) + [f'uninterpreted builtin: {u}' for u in ufs],
             evaluations=max(evaluations, 0), distinct_nontrivial=distinct,
-            rule=cfg.get('rule', 'bounded layer: the contract of each unit evaluated natively on the product of the small domains of its input shapes; drivers enumerate the domain named in their id'),
+            rule=cfg.get('rule', 'bounded layer (never counted as proved). (a) every unit contract evaluated natively on the product of the small domains declared '
+                         'for its input shapes (capped per unit; a case is one input tuple, distinct by its printed value). (b) drivers - a case is one '
+                         'generated formula / model / history / file, distinct by its JSON form, non-trivial by the driver\'s own filter: '
+                         + ' || '.join(f'{d["driver"]}: {d["rule"]} [bound: {d["bound"]}]' for d in d_summ))[:6000],
             samples=samples or [dict(note='no samples')],
             explanation=explanation,
             exhaustive=False,
@@ -308,14 +316,14 @@ def replay_finding(e, units_by_id):
         return None
 
 
-def find_driver(did):
+def find_driver(did, setup=True):
     from contracts import registry
     for pid, cfg in registry.PROPS.items():
         for modname in cfg.get('driver_modules', []):
             mod = importlib.import_module(modname)
             for d in mod.DRIVERS:
                 if d.id == did:
-                    if d.setup:
+                    if d.setup and setup:
                         d.setup()
                     return d
     raise KeyError(did)
